@@ -71,7 +71,9 @@ def _worker_task(arg):
         t0 = time.time()
         n = 0
         while work and n < max_paths and time.time() - t0 < max_secs:
-            p = work.pop()
+            # breadth-first while the frontier is small, so that a batch hands many open siblings back to the pool (a pure
+            # depth-first walk keeps the frontier at the depth of the tree and starves the other workers); depth-first beyond
+            p = work.pop(0) if len(work) < 512 else work.pop()
             rec, new = _run_one(prog, harness, case, p, fuel)
             out.append(rec)
             work.extend(new)
